@@ -165,7 +165,9 @@ uint32_t Ruleset::runOnce(OomdContext& context) {
     }
     if (!runnable_rulesets_.contains(cgroup.absolutePath())) {
       OLOG << "Adding runnable ruleset for cgroup: " << cgroup.absolutePath();
-      registerRunnableRulesetForCgroupPath(context, cgroup);
+      if (!registerRunnableRulesetForCgroupPath(context, cgroup)) {
+        continue;
+      }
     }
     context.setRulesetCgroup(cgroup);
     ret = runnable_rulesets_[cgroup.absolutePath()]->runOnceImpl(context);
@@ -330,7 +332,7 @@ void Ruleset::pause_actions(std::chrono::seconds duration) {
   plugin_overrode_post_action_delay_ = true;
 }
 
-void Ruleset::registerRunnableRulesetForCgroupPath(
+bool Ruleset::registerRunnableRulesetForCgroupPath(
     OomdContext& context,
     const CgroupPath& cgroup) {
   auto detector_groups = std::vector<std::unique_ptr<DetectorGroup>>();
@@ -342,12 +344,24 @@ void Ruleset::registerRunnableRulesetForCgroupPath(
   auto action_group = std::vector<std::unique_ptr<BasePlugin>>();
   action_group.reserve(action_group_.size());
   for (auto it = action_group_.begin(); it != action_group_.end(); ++it) {
-    auto plugin = registry.create(it->get()->getName());
-    plugin->setName(it->get()->getName());
+    const auto& plugin_name = it->get()->getName();
+    const PluginConstructionContext plugin_context(cgroup.cgroupFs());
     auto args = it->get()->getPluginArgs();
     args.try_emplace("cgroup", cgroup.relativePath());
-    plugin->init(args, PluginConstructionContext(cgroup.cgroupFs()));
-    action_group.emplace_back(plugin);
+    auto plugin = std::unique_ptr<BasePlugin>(registry.create(plugin_name));
+    plugin->setName(plugin_name);
+    if (plugin->init(args, plugin_context) != 0) {
+      // Not every action takes a cgroup argument (eg. systemd_restart). Such
+      // an action gets a fresh plugin with exactly the configured arguments.
+      plugin.reset(registry.create(plugin_name));
+      plugin->setName(plugin_name);
+      if (plugin->init(it->get()->getPluginArgs(), plugin_context) != 0) {
+        OLOG << "Failed to init action=" << plugin_name
+             << " for cgroup: " << cgroup.absolutePath();
+        return false;
+      }
+    }
+    action_group.emplace_back(std::move(plugin));
   }
   auto ruleset = std::make_unique<Ruleset>(
       name_,
@@ -362,6 +376,7 @@ void Ruleset::registerRunnableRulesetForCgroupPath(
       std::make_unique<CgroupPath>(cgroup.cgroupFs(), cgroup.relativePath()));
   ruleset->prerun(context);
   runnable_rulesets_[cgroup.absolutePath()] = std::move(ruleset);
+  return true;
 }
 
 } // namespace Engine
